@@ -285,6 +285,8 @@ var c13HistCfgs = []gow.Config{
 	{CRC: true, Chunked: true, ChunkSize: 4096, Compression: "zstd", Level: 3},
 	{CRC: true, Chunked: true, ChunkSize: 4096, Compression: "zstd", Level: 1},
 	{CRC: true, Chunked: true, ChunkSize: 4096, Compression: "lz4", Level: 0},
+	{CRC: true, Chunked: true, ChunkSize: 4096, Compression: "lz4", Level: 3},
+	{CRC: true, Chunked: true, ChunkSize: 4096, Compression: "lz4", Level: 1},
 	{CRC: true, Chunked: true, ChunkSize: 4096, Compression: ""},
 }
 
@@ -417,7 +419,7 @@ func C13(r *chk.Run) {
 		c13MapOrderFn(r)
 		return
 	}
-	r.Rule("(a) map order: a binary built with an overlay that routes every map range of go/mcap (found with go/types, regenerated from the working tree) through a harness-controlled permutation; every permutation of every map range reached by workloads with 1-4 key maps, 2-4 and 20 channels (sparse chunks), deviation bound 2; output bytes must equal the identity-order run. (b) instance interleaving: 2 [3] instances (writers with different compressions, a validating lexer) under a cooperative scheduler with yield points before every API call and at every sink write / source read / attachment-source read; all interleavings with preemption bound 2 [3]; each instance's result must equal its solo run. (c) GOMAXPROCS in {1,2,4,16}: 45 configurations x 300 messages in a fresh subprocess each, digests equal. (d) supporting: 16 free-running goroutines with independent writers/readers under -race. (e) every history of up to 3 writers (zstd at 4 levels, lz4, none) run one after another in ONE process, with and without reusing the caller's Header/Schema/Channel objects: each output must equal the digest the same calls give in a fresh process; distinct = distinct schedules / permutation vectors")
+	r.Rule("(a) map order: a binary built with an overlay that routes every map range of go/mcap (found with go/types, regenerated from the working tree) through a harness-controlled permutation; every permutation of every map range reached by workloads with 1-4 key maps, 2-4 and 20 channels (sparse chunks), deviation bound 2; output bytes must equal the identity-order run. (b) instance interleaving: 2 [3] instances (writers with different compressions, a validating lexer) under a cooperative scheduler with yield points before every API call and at every sink write / source read / attachment-source read; all interleavings with preemption bound 2 [3]; each instance's result must equal its solo run. (c) GOMAXPROCS in {1,2,4,16}: 45 configurations x 300 messages in a fresh subprocess each, digests equal. (d) supporting: 16 free-running goroutines with independent writers/readers under -race. (e) every history of up to 3 writers (zstd at 4 levels, lz4 at 3 levels, none) run one after another in ONE process, with and without reusing the caller's Header/Schema/Channel objects: each output must equal the digest the same calls give in a fresh process; distinct = distinct schedules / permutation vectors")
 	r.Assume("trusted: the map-range rewrite preserves semantics for any one fixed order; (d) is a different technique (dynamic race detection) used as supporting evidence only, as the cooperative scheduler's hand-offs would blind the detector")
 	if r.IsWorker() {
 		// shard workers of phases (b) and (e)
